@@ -30,8 +30,13 @@ CLAIMED = {
          "frame/stride/atom_indices/n_frames reach read(); the stride scales the consumed window; the cursor ends at the window; synthesised time "
          "is affine in the absolute frame index; topology and coordinates are subset together; every iterload branch honours skip/stride/"
          "atom_indices/chunk. Equality of the values is run-time and not decided.", _NOTE, "DESIGN.md §4 C02"),
+ "C12": ("constant-table extraction and folding (alias tables, precedence levels), comparison with the documentation table and a meaning oracle, AST-shape matching, CFG dominance for the rejection path",
+         "The selection language is defined by constant tables and a precedence list, so it is decided completely: every documented keyword/synonym "
+         "and its attribute, every operator spelling and its AST node, the precedence levels (per operator, not > comparisons > and > or), the shapes "
+         "built for ranges / implicit lists / regex, that select and select_expression share one parse, and that malformed input ends in an exception.",
+         _NOTE, "DESIGN.md §4 C12"),
 }
 _PENDING = "check not built yet in this round (design in DESIGN.md §4); will be claimed when its rules run clean"
-NA = {k: _PENDING for k in ["C01","C05","C06","C07","C08","C09","C10","C11","C12","C13","C14","C15","C17"]}
+NA = {k: _PENDING for k in ["C01","C05","C06","C07","C08","C09","C10","C11","C13","C14","C15","C17"]}
 NA["C16"] = ("every clause is numerical equality of computed arrays with closed-form expressions; no structural "
              "necessary condition covers more than one of the fifteen functions (DESIGN.md §5)")
